@@ -149,6 +149,37 @@ func C36(e *simkern.Env) {
 				}
 			}
 		}
+		// a bad pointer on a connection that did advertise the segment: answered
+		// with an error, and the calls after it — which use the segment again —
+		// are served
+		if reason == simkern.StopDone && !e.Violated() {
+			off := []string{fmt.Sprint(vgirpc.ShmHeaderSize + dataSize + 64), "18446744073709551615", "0", "24", fmt.Sprint(vgirpc.ShmHeaderSize + dataSize - 1), "-1", "abc"}[tp.Draw(7)]
+			ln := []string{"64", "2147483648", "0", "-5", fmt.Sprint(dataSize + 1), "18446744073709551615"}[tp.Draw(6)]
+			bad := hx.RawRequestBytes(hx.StringBatchN([]string{"script"}, nil),
+				hx.M(hx.KMethod, "u_str", hx.KReqVersion, "1", hx.KReqID, "rq-badptr", hx.KShmName, name, hx.KShmSize, fmt.Sprint(seg.Size()), hx.KShmOffset, off, hx.KShmLength, ln))
+			mk := func(n int64, pad int) *pipew.Op {
+				return &pipew.Op{Kind: "unary", Method: "u_str", Script: &hx.Script{Nonce: n, Outcome: "ok", Pad: pad}, CancelAt: -1, ReqID: fmt.Sprintf("rq-%d", n)}
+			}
+			ops4 := []*pipew.Op{mk(36801, 300), {Kind: "raw", Raw: bad, CancelAt: -1, Script: &hx.Script{}, ReqID: "rq-badptr"}, mk(36802, 0), mk(36803, 300), mk(36804, 300)}
+			s4 := &pipew.Session{Srv: pipew.NewServer(nil), Ops: ops4, Shm: seg, ShmSend: shmSend, Advertise: func(*pipew.Op) bool { return true }}
+			r4 := pipew.RunSession(sim, s4, kn, 40000)
+			sim.Fault("bad-pointer-with-advertised-segment")
+			site := "bad-pointer/off=" + off + ",len=" + ln
+			switch {
+			case r4 == simkern.StopDeadlock || len(s4.Results) != len(ops4):
+				e.Violate("session-broken-by-bad-pointer", "bad-pointer", "after a pointer batch with offset %s length %s on a connection that advertised the segment, the session stopped answering after %d of %d calls: %s", off, ln, len(s4.Results), len(ops4), s4.StuckDetail())
+			case s4.Results[1].ClientErr != nil || lastErr(s4.Results[1].AllBatch) == nil:
+				e.Violate("bad-pointer-not-refused", site, "the bad pointer batch was not answered with an error (client error: %v)", s4.Results[1].ClientErr)
+			default:
+				for _, i := range []int{0, 2, 3, 4} {
+					r := s4.Results[i]
+					if r.ClientErr != nil || len(r.AllBatch) != 1 || r.AllBatch[0].Result != hx.WantResult("u_str", ops4[i].Script.Nonce, ops4[i].Script.Pad) {
+						e.Violate("call-around-bad-pointer-not-served", "bad-pointer", "call %d of the session with a bad pointer at call 1 returned %s (client error %v)", i, batchesSig(r.AllBatch), r.ClientErr)
+						break
+					}
+				}
+			}
+		}
 		// a pointer batch on a connection that never advertised a segment
 		if reason == simkern.StopDone && !e.Violated() {
 			ptr := hx.RawRequestBytes(hx.StringBatchN([]string{"script"}, nil),
@@ -187,7 +218,7 @@ func init() {
 		Stub:  []string{"duplex byte stream", "protocol client (resolves and frees every pointer it receives)", "independent parser of the documented segment header (worlds/shmw)"},
 		Quick: 500, Thorough: 40000,
 		Warm: c36Warm,
-		FaultKinds: []string{"shm-advertised", "pointer-without-advertisement", "read-fragmentation", "write-delay", "client-cancel", "client-write-ahead"},
+		FaultKinds: []string{"shm-advertised", "bad-pointer-with-advertised-segment", "pointer-without-advertisement", "read-fragmentation", "write-delay", "client-cancel", "client-write-ahead"},
 		Assumptions: []string{"the client keeps the segment's documented one-party-at-a-time (lockstep) contract: on a stream with write-ahead inputs it resolves and frees the pointer batches it received only after the end-of-stream marker, and ships its own batches through the segment only on lockstep turns", "comparison is semantic (values, schema, user metadata, logs, terminating error) and ignores vgi_rpc.* bookkeeping keys such as shm_source"},
 	}
 }
